@@ -104,6 +104,7 @@ type Result struct {
 	CrossChecked   int64 // unsat answers re-posed to the other solvers
 	CrossDisagree  int64
 	PathsRechecked int64 // completed paths whose final path condition was re-checked satisfiable
+	SolverHangs    int64 // incremental sessions killed by the watchdog (solver ignored its time limit) and restarted
 	FreshRetries   int64 // queries re-posed to fresh solver processes after an incremental unknown
 	FreshDecided   int64
 	MapRangesFixed int64 // range over a map with >=2 entries executed in insertion order only
@@ -296,12 +297,39 @@ func (p *path) solveFresh(extra string) string {
 	return "unknown"
 }
 
-// check decides pc ∧ g.
-func (p *path) check(g string) string {
+// checkHungSafe poses pc ∧ g to the incremental session. If the solver process had to be killed by the
+// watchdog (it ignored its time limit), the session is restarted, the path's script re-sent, and the
+// answer is "unknown" (the fresh-process portfolio decides next).
+func (p *path) checkHungSafe(g string) (r string) {
+	defer func() {
+		if e := recover(); e != nil {
+			if !p.sv.hung {
+				panic(e)
+			}
+			atomic.AddInt64(&p.ex.res.SolverHangs, 1)
+			if err := p.sv.restart(); err != nil {
+				panic(engineError{"cannot restart a hung solver: " + err.Error()})
+			}
+			savedLog := p.sv.log
+			p.sv.log = nil
+			p.sv.send("(push 1)") // the path's own scope (runPath pops it at the end)
+			for _, l := range p.script {
+				p.sv.send(l)
+			}
+			p.sv.log = savedLog
+			r = "unknown"
+		}
+	}()
 	p.sv.send("(push 1)")
 	p.sv.send("(assert " + g + ")")
-	r := p.sv.checkSat()
+	r = p.sv.checkSat()
 	p.sv.send("(pop 1)")
+	return r
+}
+
+// check decides pc ∧ g.
+func (p *path) check(g string) string {
+	r := p.checkHungSafe(g)
 	if r == "unknown" {
 		r = p.solveFresh(g)
 	}
